@@ -24,6 +24,17 @@ Oracle (local file system as reference, nothing from StreamFlow):
 * the source area is unchanged;
 * ``get_data_locations(final path, dst deployment, dst location)`` is non-empty, contains the final
   path, every entry is ``available``, and its type says PRIMARY / SYMBOLIC_LINK as found on disk.
+
+Sub-checks: ``matrix`` (bounded-exhaustive over the configuration space on a fixed tree/file), ``plain``,
+``inner-hostile`` (hostile names inside the tree), ``dangling`` (trees with dangling links: a failing
+transfer is accepted, what is data must still be exact), ``top-hostile`` (hostile top-level names, restricted
+to characters that cannot hang the persistent shell or leave the sandbox; failures are bucketed by root
+cause: unquoted shell words / basename taken for an option).
+
+Violation kinds: ``C22:<mechanism>:<dir|file>:<absent|absent-rename|existing-dir>:<symptom>`` with mechanism in
+local-ro, local-rw, l2r, r2l, r2r, same-ro, same-rw and symptom in structure, content, exec-bits,
+raises:<Type>, writable-aliases-source, cross-host-link, source-modified, not-registered, not-available,
+wrong-data-type.
 """
 from __future__ import annotations
 
@@ -39,12 +50,14 @@ prop = Prop(
     level="exploration",
     technique="Hypothesis PBT, differential against the local file system: snapshot(destination) == snapshot(source) after DefaultDataManager.transfer_data between generated pairs of local / shell-remote / wrapped locations",
     rule=(
-        "case = (source: generated tree of 0..30 entries | file | symlink to either) x (ordered pair of location kinds "
-        "L, A0, A1, B0, W0) x (writable | read-only) x (destination absent | existing directory) x (same | different "
-        "basename) x transfer buffer size; names from the plain alphabet, from the hostile alphabet inside the tree, and "
-        "(separate sub-check) hostile top-level names. Non-trivial = the transfer crosses two different location kinds and "
-        "the source is a tree with >= 2 entries incl. a nested directory or a non-empty file (or a non-empty file source); "
-        "distinct by the whole case."
+        "matrix (bounded-exhaustive over configurations): every ordered pair of the location kinds L, A0, A1, B0, W0 x writable/read-only x "
+        "destination absent | absent with another basename | existing directory x source dir | file | symlink to dir | symlink to file, on one "
+        "fixed tree and one fixed file (600 transfers, thorough tier; the quick tier runs an 80-transfer covering subset: every copy mechanism x "
+        "writable x source type x destination state, all 25 ordered pairs). Random sub-checks: case = (source: generated tree of 0..30 entries | "
+        "file | symlink to either) x pair of location kinds x mode x destination state x transfer buffer size, with names from the plain alphabet, "
+        "from the hostile alphabet inside the tree, trees with dangling links, and hostile top-level names as separate sub-checks. Non-trivial = "
+        "the transfer crosses two different location kinds and the source is a tree with >= 2 entries incl. a nested directory or a non-empty "
+        "file (or a non-empty file source); distinct by the whole case."
     ),
     level_text="Random search over trees, routes and modes; the oracle is the file system itself (sha1 / mode bits / structure), both directions.",
     level_note=(
@@ -59,6 +72,7 @@ prop = Prop(
 )
 
 KINDS = ["L", "A0", "A1", "B0", "W0"]
+KINDS_W = ["L", "L", "A0", "A1", "B0", "W0"]
 DOMAIN = {"L": "L", "A0": "A0", "A1": "A1", "B0": "B0", "W0": "A0"}
 SHELL_SPECIAL = {"blank", "quote", "dollar-backtick", "glob", "backslash", "shell-op", "newline"}
 
@@ -78,8 +92,8 @@ def _decode(args):
     source = {"kind": kind, "tree": tree} if kind in ("dir", "link-dir") else {"kind": kind, "file": fd}
     return {
         "source": source,
-        "src": KINDS[h[1] % 5],
-        "dst": KINDS[h[2] % 5],
+        "src": KINDS_W[h[1] % 6],  # the local location twice as likely: L->L is the most common real route
+        "dst": KINDS_W[h[2] % 6],
         "writable": bool(h[3] & 1),
         "dst_exists": h[4] % 3 == 0,
         "src_name": src_name,
@@ -88,7 +102,9 @@ def _decode(args):
     }
 
 
-def _cases(alpha: str = "plain", top=None, dangling: bool = False, max_size: int = 65537):
+def _cases(alpha: str = "plain", top=None, dangling: bool = False, max_size: int | None = None):
+    if max_size is None:  # files up to 64 KiB in the quick tier, up to 1 MiB in the thorough tier
+        max_size = 65537 if fs.current_tier() == "quick" else 1048576
     top = fs.plain_names() if top is None else top
     tree = fs.trees(alpha, max_size=max_size, dangling=dangling, max_entries=30 if max_size <= 70000 else 20)
     fd = st.fixed_dictionaries({"size": fs.sizes(max_size), "seed": st.integers(0, 999),
@@ -236,7 +252,7 @@ async def _run_transfer(case, rec, *, accept_failure: bool = False, bucket: str 
 
         # ---- classification (before the verdict, so that excluded known findings are counted too) ----
         route = f"{case['src']}->{case['dst']}"
-        rec.label(f"route:{route}", f"mechanism:{rclass}", f"src:{kind}", "writable" if case["writable"] else "read-only",
+        rec.label(f"route:{route}", f"mechanism:{rclass}", f"combo:{rclass}|{stype}|{dstate}", f"src:{kind}", "writable" if case["writable"] else "read-only",
                   "dst:existing-dir" if case["dst_exists"] else "dst:absent",
                   "rename" if case["dst_name"] is not None and not case["dst_exists"] else "same-name",
                   f"buf:{buf}")
@@ -269,12 +285,8 @@ async def _run_transfer(case, rec, *, accept_failure: bool = False, bucket: str 
                 sub = "exec-bits"
             elif changed and not missing and not extra:
                 sub = "content"
-            elif missing and not extra:
-                sub = "missing"
-            elif extra and not missing:
-                sub = "extra"
             else:
-                sub = "structure"
+                sub = "structure"  # some path is missing and/or unexpected, whatever the mix
             raise V(sub, f"{route} {kind} writable={case['writable']} dst_exists={case['dst_exists']} "
                                            f"rename={case['dst_name'] is not None}\n" + fs.diff_snapshots(expected, got))
 
@@ -325,20 +337,81 @@ async def _run_transfer(case, rec, *, accept_failure: bool = False, bucket: str 
             shutil.rmtree(sandbox, ignore_errors=True)
 
 
-@prop.given("plain", _cases("plain"), quick=240, thorough=6000, loop="std", shrink=False, case_timeout=600)
+MATRIX_TREE = {"alpha": "plain", "dangling": False, "entries": [
+    {"k": "f", "n": "run.sh", "p": 0, "size": 700, "seed": 1, "c": "textnl", "x": 1},
+    {"k": "d", "n": "sub", "p": 0},
+    {"k": "f", "n": "data.bin", "p": 1, "size": 5000, "seed": 2, "c": "bin", "x": 0},
+    {"k": "d", "n": "empty", "p": 1},
+    {"k": "f", "n": "zero", "p": 1, "size": 0, "seed": 0, "c": "bin", "x": 3},
+    {"k": "l", "n": "lnk", "p": 0, "t": 2, "dangling": False},
+    {"k": "l", "n": "dlnk", "p": 2, "t": 1, "dangling": False}]}
+MATRIX_FILE = {"size": 1300, "seed": 3, "c": "bin", "x": 1}
+
+
+def _matrix_all():
+    for src in KINDS:
+        for dst in KINDS:
+            for writable in (True, False):
+                for dstate in ("absent", "absent-rename", "existing-dir"):
+                    for kind in ("dir", "file", "link-dir", "link-file"):
+                        source = {"kind": kind, "tree": MATRIX_TREE} if kind.endswith("dir") else {"kind": kind, "file": MATRIX_FILE}
+                        yield {"source": source, "src": src, "dst": dst, "writable": writable, "dst_exists": dstate == "existing-dir",
+                               "src_name": "srcobj", "dst_name": "dstobj" if dstate != "absent" else None, "buf": 65536}
+
+
+def gen_matrix(tier):
+    """Every ordered pair of location kinds x writable/read-only x destination state x source type, on one
+    fixed tree (nested and empty directories, executable / empty / multi-block files, links to file and to
+    directory) and one fixed executable file: the configuration space of the statement, exhaustively (600
+    transfers) in the thorough tier. A transfer costs ~20 process creations, so the quick tier runs a covering
+    subset: every (copy mechanism, writable, source type dir|file, destination state) combination once plus
+    link sources per (mechanism, writable), with the routes chosen greedily so that all 25 ordered pairs occur."""
+    cases = list(_matrix_all())
+    if tier != "quick":
+        yield from cases
+        return
+    used: dict = {}
+    buckets: dict = {}
+    for c in cases:
+        base = _route_class(c).split("-")[0]
+        kind = c["source"]["kind"]
+        dstate = "existing-dir" if c["dst_exists"] else "absent-rename" if c["dst_name"] else "absent"
+        key = (base, c["writable"], kind, dstate) if not kind.startswith("link") else (base, c["writable"], kind)
+        buckets.setdefault(key, []).append(c)
+    for key in sorted(buckets, key=repr):
+        cands = buckets[key]
+        if len(key) == 3:  # link sources: rotate the destination state
+            want = ("absent", "existing-dir", "absent-rename")[sum(map(ord, repr(key))) % 3]
+            cands = [c for c in cands if ("existing-dir" if c["dst_exists"] else "absent-rename" if c["dst_name"] else "absent") == want] or cands
+        best = min(cands, key=lambda c: (used.get((c["src"], c["dst"]), 0), c["src"], c["dst"]))
+        used[(best["src"], best["dst"])] = used.get((best["src"], best["dst"]), 0) + 1
+        yield best
+    for src in KINDS:  # any ordered pair not met yet
+        for dst in KINDS:
+            if (src, dst) not in used:
+                used[(src, dst)] = 1
+                yield next(c for c in cases if c["src"] == src and c["dst"] == dst and c["source"]["kind"] == "dir" and not c["dst_exists"] and c["dst_name"] is None and c["writable"])
+
+
+@prop.enumerated("matrix", gen_matrix, loop="std", case_timeout=600, max_shards=8)
+async def check_matrix(case, rec):
+    await _run_transfer(case, rec)
+
+
+@prop.given("plain", lambda: _cases("plain"), quick=40, thorough=6000, loop="std", shrink=False, case_timeout=600)
 async def check_plain(case, rec):
     """Plain alphabet everywhere: must be entirely clean."""
     await _run_transfer(case, rec)
 
 
-@prop.given("inner-hostile", _cases("hostile"), quick=120, thorough=3000, loop="std", shrink=False, case_timeout=600)
+@prop.given("inner-hostile", lambda: _cases("hostile"), quick=24, thorough=3000, loop="std", shrink=False, case_timeout=600)
 async def check_inner_hostile(case, rec):
     """Hostile names *inside* the transferred tree (they only travel through tar / cp / the tar writer),
     plain top-level names."""
     await _run_transfer(case, rec)
 
 
-@prop.given("dangling", _cases("plain", dangling=True), quick=60, thorough=1000, loop="std", shrink=False, case_timeout=600)
+@prop.given("dangling", lambda: _cases("plain", dangling=True), quick=12, thorough=1000, loop="std", shrink=False, case_timeout=600)
 async def check_dangling(case, rec):
     """Trees that may contain dangling symlinks: the transfer may fail (documented exception types); if it
     succeeds everything that is data must be exact."""
@@ -359,7 +432,7 @@ def _top_hostile():
     )
 
 
-@prop.given("top-hostile", _cases("plain", top=_top_hostile()), quick=120, thorough=3000, loop="std", shrink=False, case_timeout=600)
+@prop.given("top-hostile", lambda: _cases("plain", top=_top_hostile()), quick=24, thorough=3000, loop="std", shrink=False, case_timeout=600)
 async def check_top_hostile(case, rec):
     """Hostile *top-level* names (the paths StreamFlow itself puts on command lines). Names with
     shell-significant characters get their own kind prefix (one root cause: unquoted words)."""
